@@ -63,6 +63,10 @@ BLIND = {  # did the owning check exist, unchanged, before the change was seen?
     'b11-C10': 'yes - caught (C10.R7 loaded-statistics variant, C09.R10)',
     'b11-C11': 'yes - caught (C11.R5 add table: scope order)',
     'b11-C17': 'yes - caught (C17.R2 / C17.R12 parameter laws for all-negative ranges; C04.R7)',
+    'b12-C02': 'yes - C01.R3 caught it; the owning check C02 reported only by accident (stand-in tensors had no shapeSignature: AttributeError). Stand-ins now have every schema field with its default; C02.R7 / C02.R9 compare the shapes of inserted and original tensors on graphs with dynamic dimensions',
+    'b12-C12': 'yes - caught (C11.R6 load == documented adds in list order; C12.R7 session round trip)',
+    'b12-C14': 'yes - caught (C14.R1 / C09.R1 effect analysis: caller-owned statistics rewritten in place)',
+    'b12-C18': 'yes - caught, but by a text test of C18.R3 (skip condition mentions np.object_); replaced by the dtype-aware validation simulation C18.R9 (bool / int / float16 / string tensors)',
     'b3-C18': 'yes (written minutes before) - MISSED, then fixed', 'b3-C19': 'yes - caught by C10.R2 only, C19.R8 added', 'b3-C01': 'yes - MISSED (declared blind spot), then fixed',
 }
 
